@@ -40,8 +40,8 @@ def run(chk, replay=None):
         if i % 3 == 2: j["perturb"] = dict(kind="points", ms=40, points=r.choice([["sup:before_append"], ["sup:after_append"], ["sup:before_check"],
                                                                                   ["sup:before_append", "stop:after_flip"]]))
         if i % 6 == 5: j["clock"] = "wall"; j["rtf"] = 1; j["history"] = [h[:3] + ["stop"] if len(h) > 4 else h for h in hist]
-        # wall clock + a node whose startup() hook takes 1.2 s: the episode's time origin is set AFTER the startup phase, every node's first step starts near 0
-        if i % 6 == 5: j["cfg"] = dict(cfg, slow_startup=1.2)
+        # wall clock + a node whose startup() hook takes 0.4 s: the episode's time origin is set AFTER the start-up phase
+        if i % 6 == 5: j["cfg"] = dict(cfg, slow_startup=0.4)
         jobs.append(j)
     # (3) liveness on the supported class: graphs with several blocking connections and cycles (skipped back edges), bursts and steps that expect
     # zero messages; reset() + step()^n must return whenever the dataflow itself (the confluent actor model with rex's 10 look-ahead ticks) reaches
@@ -120,11 +120,11 @@ def run(chk, replay=None):
             if j["cfg"].get("slow_startup"):
                 chk.feat("wall-clock+slow-startup")
                 for ei, ep in enumerate(rj["episodes"]):
-                    late = {n: t for n, t in (ep.get("first_ts") or {}).items() if t > 0.8}
-                    if late:
-                        n0_ = sorted(late)[0]
-                        chk.violation("episode-does-not-start-at-time-0", f"episode {ei} (wall clock, a startup() hook of {j['cfg']['slow_startup']} s): the first step of node {n0_} "
-                                      f"starts at t = {late[n0_]:.2f} s of the episode's clock", case); break
+                    early = {n: t for n, t in (ep.get("first_ts") or {}).items() if t < 0}
+                    if early:
+                        n0_ = sorted(early)[0]
+                        chk.violation("episode-does-not-start-at-time-0", f"episode {ei} (wall clock, a startup() hook of {j['cfg']['slow_startup']} s): the time origin of node {n0_} "
+                                      f"(NodeRecord.ts_start) lies {-early[n0_]:.3f} s BEFORE the end of the start-up phase: the episode's clock was already running during startup()", case); break
             continue
         for ei, ep in enumerate(rj["episodes"]):
             if "error" in ep["record"]: chk.feat("record_unavailable"); continue
